@@ -358,12 +358,26 @@ func (p c16) Run(c *fw.Case) {
 		if r.IntN(2) == 0 {
 			opts.TypeSchemas[reflect.TypeFor[time.Time]()] = &jsonschema.Schema{Type: "string", Format: "date-time"}
 		}
+		if r.IntN(3) == 0 {
+			// the caller's entry wins over every built-in translation, whatever the size of the table
+			t = gen.Pick(r, []reflect.Type{reflect.TypeFor[typecorpus.StdTypes](), reflect.TypeFor[typecorpus.Repeats](), reflect.TypeFor[[]typecorpus.StdTypes]()})
+			std := []reflect.Type{reflect.TypeFor[time.Time](), reflect.TypeFor[slog.Level](), reflect.TypeFor[big.Int](), reflect.TypeFor[big.Rat](), reflect.TypeFor[big.Float]()}
+			for _, i := range r.Perm(len(std))[:1+r.IntN(len(std))] {
+				opts.TypeSchemas[std[i]] = &jsonschema.Schema{Types: []string{"string", "number"}, Description: "caller's " + std[i].String()}
+			}
+		}
+		for k := r.IntN(12); k > 0 && r.IntN(2) == 0; k-- { // unrelated entries
+			opts.TypeSchemas[gen.Pick(r, decoyTypes)] = &jsonschema.Schema{Type: "boolean", Description: "unrelated"}
+		}
 		label = "overrides"
 	default:
 		t, label = gen.SafeRandType(r, gen.TypeOpts{MaxDepth: 2 + r.IntN(3)}), "reflect"
 	}
 	if opts == nil && r.IntN(3) == 0 {
 		opts = &jsonschema.ForOptions{IgnoreInvalidTypes: r.IntN(2) == 0}
+	}
+	if c.Idx%5 == 2 {
+		decoyInfer(c, t) // call history: the same type inferred with other options first
 	}
 	mode := "default"
 	if oldNullMode() {
